@@ -509,6 +509,10 @@ func C10(r *chk.Run) {
 			}
 			return []iso.Outcome{runEntry(e, b)}
 		}
+		replayIso(r, f.name, fn)
+		if r.Replay != nil {
+			continue
+		}
 		total := f.n * c10Entries
 		batch := total/(r.Workers*6) + 1
 		nw := r.Workers
